@@ -54,6 +54,14 @@ CLAIMED["C05"] = dict(
     note="Trusted: the reference configuration's output is not assumed correct (C03/C16 decide that), only equal. GOMAXPROCS is irrelevant by construction (one task runs at a time); the determinism self-test checks that claim.",
 )
 
+CLAIMED["C06"] = dict(
+    level="exploration",
+    design="DESIGN.md 4 (C06)",
+    technique="deterministic simulation of the real obiuniq main (child process, real temporary chunk files) under a seeded scheduler; reference group-by model compared as a set; input permutation, chunk count, memory/disk and worker counts as drawn configuration",
+    text="Generated multisets of records (duplicates, one-base variants, counts, category and merge attributes present, absent or already merged) are dereplicated by the real obiuniq main under seeded schedules, in memory and on disk (real chunk files written and read back inside the simulated run), for drawn chunk counts, worker counts, batch sizes and input permutations; the output set must equal a reference group-by: one record per key, summed counts, summed merged maps, singleton rule, total count conserved.",
+    note="Trusted: the reference group-by (40 lines), the harness' FASTA/JSON-header reader (encoding/json). The kernel file system is real and fault-free here. The obidemerge round trip is checked by the reference model only indirectly (merged maps are exact).",
+)
+
 PENDING = {
 }
 
